@@ -68,6 +68,8 @@ def run(R, cfg, over=None):
     sp = D.build_step(R, H)
     D.prove_list(R, sp, obs_bounds(H))
     D.inv_step(R, sp)
+    if D.escaped_domain(R):
+        D.escalate_two_steps(R, H, obs_bounds(H))
     if getattr(H, "RESET_INV", True):
         ctx, key, st, ts = D.inv_reset(R, H, prove_inv=False)
         obs = [("reset: " + n, v) for n, v in D.spec_bounds_obl(env.observation_spec, ts.observation)]
